@@ -7,22 +7,35 @@ Open Scope nat_scope.
 
 (* Full statement: for EVERY object store (OperatorTemplate, NodeTemplate and CircuitTemplate objects shared at will), every
    root circuit of any hierarchy depth d whose unfolding exists, and EVERY finite history of update_var (scalar / array
-   values, wildcard patterns), edge-attribute updates and compilations with apply(node_values), the outputs of the
-   implementation model (deepcopy of the node template, write, deepcopy of every sub-circuit on the path and
-   re-registration — the mechanism after fix D47) are the outputs of the specification (functional update of the
-   addressed paths of the unshared tree, nothing else). *)
+   values of any length, wildcard patterns), edge-attribute updates, update_template (nodes / edges, with and without
+   in_place, the user's variable following the returned object) and compilations with apply(node_values, edge_values),
+   the outputs of the implementation model are the outputs of the specification (functional update of the addressed
+   paths of the unshared tree, nothing else). *)
 Definition C07_full_statement : Prop := forall d r ops h t, abs d h r = Some t ->
-  snd (runI d r h ops) = snd (runS d t ops).
+  snd (runI d (init_state h r) ops) = snd (runS d t ops).
 
-Theorem C07_full : C07_full_statement.
+(* It holds for every history without update_template(edges=.., in_place=True) ... *)
+Theorem C07_partial : forall d r ops h t, abs d h r = Some t -> no_inplace_edge_template ops = true ->
+  snd (runI d (init_state h r) ops) = snd (runS d t ops).
 Proof. exact history_outputs. Qed.
-Print Assumptions C07_full.
+Print Assumptions C07_partial.
 
-(* together with the simulation of the states *)
-Theorem C07_refines : forall d r ops h t, abs d h r = Some t ->
-  abs d (fst (runI d r h ops)) r = Some (fst (runS d t ops)) /\ snd (runI d r h ops) = snd (runS d t ops).
+(* ... together with the simulation of the states (the root object changes along update_template without in_place) *)
+Theorem C07_refines : forall d ops st t, abs d (heap_of st) (root_of st) = Some t -> stale_of st = None ->
+  no_inplace_edge_template ops = true ->
+  abs d (heap_of (fst (runI d st ops))) (root_of (fst (runI d st ops))) = Some (fst (runS d t ops)) /\
+  snd (runI d st ops) = snd (runS d t ops).
 Proof. exact history_refines. Qed.
 Print Assumptions C07_refines.
+
+(* each single operation refines its specification on every store *)
+Theorem C07_update_template : forall d r h t inpl adds es, abs d h r = Some t ->
+  match update_template d r h inpl adds es with
+  | Some (h', r') => exists t', tupdate_template t adds es = Some t' /\ abs d h' r' = Some t'
+  | None => tupdate_template t adds es = None
+  end.
+Proof. exact update_template_equiv. Qed.
+Print Assumptions C07_update_template.
 
 (* what the specification does: a functional update at node path n is read back at n and nowhere else *)
 Theorem C07_frame : forall n t a t' m, tset_node t n a = Some t' ->
@@ -69,9 +82,9 @@ Definition d27_heap : heap :=
    ONode [(0, [])];
    OCirc [("A"%string, 1); ("B"%string, 1)] [("A/op/x"%string, "B/op/u"%string, [("weight"%string, Sc (mkq 2 1))])];
    OCirc [("c1"%string, 2); ("c2"%string, 2)] [("c1/A/op/x"%string, "c2/B/op/u"%string, [("weight"%string, Sc (mkq 1 2))])]].
-Definition d27_ops : list hop := [UpdVar ["c1"%string; "A"%string] "op" "k" (Sc (mkq 5 1)); Observe []].
+Definition d27_ops : list hop := [UpdVar ["c1"%string; "A"%string] "op" "k" (Sc (mkq 5 1)); Observe [] []].
 Example C07_shared_subcircuit_regression :
-  let outs := snd (runI 1 3 d27_heap d27_ops) in
+  let outs := snd (runI 1 (init_state d27_heap 3) d27_ops) in
   probe (["c1"%string; "A"%string], "op"%string, "k"%string) outs = 5%Z /\
   probe (["c2"%string; "A"%string], "op"%string, "k"%string) outs = 1%Z /\
   probe (["c1"%string; "B"%string], "op"%string, "k"%string) outs = 1%Z.
@@ -86,11 +99,25 @@ Definition nv_heap : heap :=
    ONode [(0, [])];
    OCirc [("A"%string, 1); ("B"%string, 1)] [("A/op/x"%string, "B/op/u"%string, [("weight"%string, Sc (mkq 2 1))])]].
 Definition nv_ops : list hop :=
-  [UpdVar ["A"%string] "op" "k" (Sc (mkq 5 1)); UpdVar ["all"%string] "op" "x" (Arr [mkq 1 1; mkq 2 1]); Observe []].
+  [UpdVar ["A"%string] "op" "k" (Sc (mkq 5 1)); UpdVar ["all"%string] "op" "x" (Arr [mkq 1 1; mkq 2 1]); Observe [] []].
 Example C07_nonvacuous :
   (exists t, abs 0 nv_heap 2 = Some t) /\
-  let outs := snd (runI 0 2 nv_heap nv_ops) in
+  let outs := snd (runI 0 (init_state nv_heap 2) nv_ops) in
   probe (["A"%string], "op"%string, "k"%string) outs = 5%Z /\ probe (["B"%string], "op"%string, "k"%string) outs = 1%Z /\
   probe (["A"%string], "op"%string, "x"%string) outs = 1%Z /\ probe (["B"%string], "op"%string, "x"%string) outs = 2%Z.
 Proof. split; [eexists; vm_compute; reflexivity | vm_compute; auto]. Qed.
 Print Assumptions C07_nonvacuous.
+
+(* refutation of the full statement (known finding C07-inplace-edge-map): update_template(edges=[B->A], in_place=True)
+   replaces self.edges by a copy but keeps the old _edge_map; the following update_var(edge_vars=[(A->B, weight 64)])
+   writes into a dictionary the template no longer uses: the compiled weight stays 2 (specification: 64) *)
+Definition ipe_ops : list hop :=
+  [UpdTemplate true [] [("B/op/x"%string, "A/op/u"%string, [("weight"%string, Sc (mkq 8 1))])];
+   UpdEdge "A/op/x" "B/op/u" [("weight"%string, Sc (mkq 64 1))]; Observe [] []].
+Theorem C07_inplace_edges_refuted : ~ C07_full_statement.
+Proof.
+  intros H. destruct (abs 0 nv_heap 2) as [t|] eqn:E; [|vm_compute in E; discriminate].
+  specialize (H 0 2 ipe_ops nv_heap t E). apply (f_equal (probe_w "A/op/x" "B/op/u")) in H.
+  vm_compute in E. injection E as <-. vm_compute in H. discriminate.
+Qed.
+Print Assumptions C07_inplace_edges_refuted.
